@@ -276,9 +276,11 @@ def run(tier, seed, replay):
         ex = ob.get("exit")
         if ex not in (0, 1) and not ob.get("panic") and not ob.get("crashed"):
             out.violation("exit-range:" + sp["what"][0], "exit status outside {0,1}", common.slim(sp, ob))
+        if ex == 1 and (ob.get("out_after") or {}).get("link") != (ob.get("out_before") or {}).get("link"):
+            out.violation("failure-touches-output:" + sp["what"][0], "failing run changed the symbolic link at the output path", common.slim(sp, ob))
         if ex == 1 and ob.get("out_after", {}).get("exists") and not (ob.get("out_before") or {}).get("exists"):
             out.violation("failure-touches-output:" + sp["what"][0], "failing run created the output", common.slim(sp, ob))
-        if ex == 1 and (ob.get("out_before") or {}).get("exists") and (ob["out_after"].get("hash"), ob["out_after"].get("size")) != (ob["out_before"].get("hash"), ob["out_before"].get("size")):
+        if ex == 1 and (ob.get("out_before") or {}).get("exists") and (ob["out_after"].get("hash"), ob["out_after"].get("size"), ob["out_after"].get("link")) != (ob["out_before"].get("hash"), ob["out_before"].get("size"), ob["out_before"].get("link")):
             out.violation("failure-touches-output:" + sp["what"][0], "failing run changed the existing output file", common.slim(sp, ob))
         cls = "accepted" if ex == 0 else ((ob.get("errors") or ["?"])[0].split(":")[0])
         kinds[cls] = kinds.get(cls, 0) + 1
